@@ -169,6 +169,90 @@ Proof.
   destruct (length (sec s0) <=? length (sec s2)); auto.
 Qed.
 
+(* Pratt *)
+Definition pstrip (x : presult) : presult := match x with PDone r s => PDone (strip r) s | PNext s => PNext s end.
+
+Section PrattMI.
+Variables recC recE : nat -> st -> outcome * st.
+Hypothesis Hrec : forall minp s, recC minp s = (strip (fst (recE minp s)), snd (recE minp s)).
+
+Lemma pratt_prefix_mi : forall ops ctx pre start s,
+  pratt_prefix spn run recC Check ops ctx pre start s = pstrip (pratt_prefix spn run recE Emit ops ctx pre start s).
+Proof.
+  induction ops as [|o ops IH]; intros; cbn [pratt_prefix]; [reflexivity|].
+  destruct o as [r bp og k|bp og k|bp og k]; auto.
+  rewrite H. destruct (run Emit og ctx s) as [[] s1]; cbn [fst snd strip]; auto.
+  rewrite Hrec. destruct (recE (2 * bp) s1) as [[] s2]; cbn [fst snd strip]; auto.
+Qed.
+
+Lemma pratt_postfix_mi : forall ops ctx minp pre start lhs lhs' s,
+  pratt_postfix spn run Check ops ctx minp pre start lhs s = pstrip (pratt_postfix spn run Emit ops ctx minp pre start lhs' s).
+Proof.
+  induction ops as [|o ops IH]; intros; cbn [pratt_postfix]; [reflexivity|].
+  destruct o as [r bp og k|bp og k|bp og k]; auto.
+  destruct (minp <=? 2 * bp + 1); auto.
+  rewrite H. destruct (run Emit og ctx s) as [[] s1]; cbn [fst snd strip]; auto.
+Qed.
+
+Lemma pratt_infix_mi : forall ops ctx minp pre start lhs lhs' s,
+  pratt_infix spn run recC Check ops ctx minp pre start lhs s = pstrip (pratt_infix spn run recE Emit ops ctx minp pre start lhs' s).
+Proof.
+  induction ops as [|o ops IH]; intros; cbn [pratt_infix]; [reflexivity|].
+  destruct o as [r bp og k|bp og k|bp og k]; auto.
+  destruct (minp <=? lpow r bp); auto.
+  rewrite H. destruct (run Emit og ctx s) as [[] s1]; cbn [fst snd strip]; auto.
+  rewrite Hrec. destruct (recE (rpow r bp) s1) as [[] s2]; cbn [fst snd strip]; auto.
+Qed.
+End PrattMI.
+
+Lemma pratt_go_S' f m atom ops ctx minp s :
+  pratt_go spn run (S f) m atom ops ctx minp s =
+    match pratt_prefix spn run (pratt_go spn run f m atom ops ctx) m ops ctx (save s) (cur s) s with
+    | PDone (Ok v) s1 => pratt_loop spn run f m atom ops ctx minp (cur s) v s1
+    | PDone r s1 => (r, s1)
+    | PNext s1 =>
+        match run m atom ctx s1 with
+        | (Ok v, s2) => pratt_loop spn run f m atom ops ctx minp (cur s) v s2
+        | res => res
+        end
+    end.
+Proof. reflexivity. Qed.
+
+Lemma pratt_loop_S' f m atom ops ctx minp start lhs s :
+  pratt_loop spn run (S f) m atom ops ctx minp start lhs s =
+    match pratt_postfix spn run m ops ctx minp (save s) start lhs s with
+    | PDone (Ok v) s1 => pratt_loop spn run f m atom ops ctx minp start v s1
+    | PDone r s1 => (r, s1)
+    | PNext s1 =>
+        match pratt_infix spn run (pratt_go spn run f m atom ops ctx) m ops ctx minp (save s) start lhs s1 with
+        | PDone (Ok v) s2 => pratt_loop spn run f m atom ops ctx minp start v s2
+        | PDone r s2 => (r, s2)
+        | PNext s2 => (Ok lhs, rewind s2 (save s))
+        end
+    end.
+Proof. reflexivity. Qed.
+
+Lemma pratt_mi atom ops ctx : forall fuel,
+  (forall minp s, pratt_go spn run fuel Check atom ops ctx minp s
+     = (strip (fst (pratt_go spn run fuel Emit atom ops ctx minp s)), snd (pratt_go spn run fuel Emit atom ops ctx minp s)))
+  /\
+  (forall minp start lhs' s, pratt_loop spn run fuel Check atom ops ctx minp start None s
+     = (strip (fst (pratt_loop spn run fuel Emit atom ops ctx minp start lhs' s)),
+        snd (pratt_loop spn run fuel Emit atom ops ctx minp start lhs' s))).
+Proof.
+  induction fuel as [|f [IHgo IHloop]]; [split; reflexivity|].
+  split.
+  - intros. rewrite !pratt_go_S'. rewrite (pratt_prefix_mi _ _ IHgo).
+    destruct (pratt_prefix spn run (pratt_go spn run f Emit atom ops ctx) Emit ops ctx (save s) (cur s) s) as [[] sp|sp];
+      cbn [pstrip strip fst snd]; auto.
+    rewrite H. destruct (run Emit atom ctx sp) as [[] sa]; cbn [strip fst snd]; auto.
+  - intros. rewrite !pratt_loop_S'. rewrite (pratt_postfix_mi _ _ _ _ _ None lhs').
+    destruct (pratt_postfix spn run Emit ops ctx minp (save s) start lhs' s) as [[] sp|sp]; cbn [pstrip strip fst snd]; auto.
+    rewrite (pratt_infix_mi _ _ IHgo _ _ _ _ _ None lhs').
+    destruct (pratt_infix spn run (pratt_go spn run f Emit atom ops ctx) Emit ops ctx minp (save s) start lhs' sp) as [[] si|si];
+      cbn [pstrip strip fst snd]; auto.
+Qed.
+
 End L.
 
 Ltac emit_step :=
@@ -284,6 +368,13 @@ Proof.
   - (* ThenWithCtx *) crush IH.
   - (* MapCtx *) apply IH.
   - (* JustCfg *) unfold just_go. crush IH.
+  - (* Memo *)
+    destruct (negb (memo_on Q)); [apply IH|].
+    destruct (memo_get (memo s) (cur s) id) as [[[[p e]|]|]|]; try reflexivity.
+    destruct (q_memo_take Q); crush IH.
+  - (* Rec *) apply IH.
+  - (* Var *) destruct (nth_error (crec ctx) k); [apply IH | reflexivity].
+  - (* Pratt *) apply (proj1 (pratt_mi (go n) IH g ops ctx n)).
 Qed.
 
 End Modes.
